@@ -203,7 +203,7 @@ QUOTED_SAFE = string.ascii_letters + string.digits + " -_.,/:"
 
 @st.composite
 def _chunk_exts(draw, w, parms, used, small):
-    n = draw(st.integers(0, 3)) if draw(st.integers(0, 2 if not small else 4)) == 0 else 0
+    n = draw(st.integers(1, 3)) if draw(st.sampled_from([True, False] if not small else [True, False, False, False])) else 0
     for _ in range(n):
         name = draw(EXT_TOKEN)
         if name in used:
@@ -247,7 +247,7 @@ def _chunked_body(draw, w, small):
     draw(_chunk_exts(w, parms, used, small))
     w.crlf()
     trailers = []
-    if draw(st.integers(0, 2 if not small else 5)) == 0:
+    if draw(st.sampled_from([True, False] if not small else [True, False, False, False])):
         trailers = draw(header_list(small, maxn=1 if small else 3))
         for name, value in trailers:
             _put_header(draw, w, name, value)
@@ -283,8 +283,9 @@ def message(draw, side, small=False, want=None):
         if want == "chunked":
             framing = "chunked"
     else:
-        if not small and draw(st.integers(0, 7)) == 0:
-            spec["interim"] = n100 = draw(st.integers(1, 2))
+        n100 = 0 if small or want == "chunked" else draw(st.sampled_from([0, 0, 0, 0, 1, 2]))
+        if n100:
+            spec["interim"] = n100
             for _ in range(n100):
                 w.add("HTTP/1.1 100 Continue", "startline")
                 w.crlf()
@@ -655,9 +656,9 @@ def sse_stream(draw, small=False):
             events.append([st8["leid"], st8["ename"], "\n".join(st8["datas"])])
         st8["ename"] = ""
         st8["datas"] = []
+    kinds = set(e for _, e in lines)
     if lines[-1][1] == "\r":
         lines.append([":", "\n"])   # a final bare CR cannot be told from half a CRLF yet
     wire = "".join(t + e for t, e in lines).encode("utf-8")
-    kinds = set(e for _, e in lines)
     return {"wire": wire, "lines": lines, "events": events, "retry": st8["retry"], "leid": st8["leid"],
             "mixed": len(kinds) > 1, "has_crlf": "\r\n" in kinds}
